@@ -47,7 +47,16 @@ def value_of(i, width):
 class Codec:
     def __init__(self, width, ids):
         self.width = width
-        self.v = {i: value_of(i, width) for i in ids}
+        self.v = {}
+        used = set()
+        R = 1 << (8 * width)
+        for i in ids:
+            v = ((value_of(i, width) + R // 2) % R) - R // 2
+            # narrow widths: resolve collisions; never use the values generated audio takes (silence 0, the sine of amplitude 3)
+            while v in used or -3 <= v <= 3:
+                v = v + 1 if v + 1 < R // 2 else -(R // 2) + 1
+            used.add(v)
+            self.v[i] = v
         self.inv = {v: i for i, v in self.v.items()}
         assert len(self.inv) == len(self.v), "id -> value map not injective"
 
@@ -74,13 +83,27 @@ def mk_wav(ids, rate, codec):
     return audio.Wav(frames, params)
 
 
-ALL_IDS = list(range(1, 40)) + [101, 102, 103]
+# sample ids a recording may hold: 1..39 in the small universes, up to 400 in the long random recordings (width 1 has only 256
+# values: up to 130); 101..103 are reserved for frames that an operation inserts
+IDS_BY_WIDTH = {1: list(range(1, 131)), 2: list(range(1, 404)), 4: list(range(1, 404))}
+_CODECS = {}
+
+
+def codec_for(width):
+    if width not in _CODECS:
+        _CODECS[width] = Codec(width, IDS_BY_WIDTH[width])
+    return _CODECS[width]
+
+
+def long_ids(rng, n, width):
+    pool = [i for i in IDS_BY_WIDTH[width] if i not in (101, 102, 103)]
+    return rng.sample(pool, min(n, len(pool)))
 
 
 def run_edit(vec, rate, width, eid, workdir, wav=None):
     """vec: {op, args, pre} with times in 1/M samples; wav: a live object to continue a history on"""
     audio, _, errors = mods()
-    codec = Codec(width, ALL_IDS)
+    codec = codec_for(width)
     if wav is None:
         wav = mk_wav(vec["pre"], rate, codec)
     else:
@@ -161,7 +184,7 @@ def write_wav(fn, ids, rate, codec):
 def run_read(vec, rate, width, eid, workdir):
     """readFramesAtTimes / generators / extractSubwav"""
     audio, _, errors = mods()
-    codec = Codec(width, ALL_IDS)
+    codec = codec_for(width)
     a = vec["args"]
     op = vec["op"]
     st, pe, ret, aligned, sameparams = "ok", False, [], True, True
@@ -258,7 +281,7 @@ def run_histories(nhist, seed, start, workdir, maxlen=6):
     eid = start
     for h in range(nhist):
         rate, width = rng.choice([(8, 1), (8, 2), (1000, 2), (16000, 4)])
-        codec = Codec(width, ALL_IDS)
+        codec = codec_for(width)
         pre = rng.sample(range(1, 40), rng.choice([0, 2, 5, 9]))
         wav = mk_wav(pre, rate, codec)
         for step in range(rng.randint(2, maxlen)):
@@ -274,10 +297,64 @@ def run_histories(nhist, seed, start, workdir, maxlen=6):
             args = {"getSamples": {"t0": t0, "t1": t1}, "getSubwav": {"t0": t0, "t1": t1}, "deleteSegment": {"t0": t0, "t1": t1},
                     "insert": {"t": t0, "frames": frames}, "replaceSegment": {"t0": t0, "t1": t1, "frames": frames},
                     "concatenate": {"frames": frames}}[op]
-            ev = run_edit({"op": op, "args": args, "pre": []}, rate, width, eid, workdir, wav=wav)
+            try:
+                ev = run_edit({"op": op, "args": args, "pre": []}, rate, width, eid, workdir, wav=wav)
+            except common.MachineryError:
+                raise
+            except Exception as ex:  # noqa
+                out.append(common.broken_event(eid, {"op": op, "args": args}, ex))
+                eid += 1
+                break
             ev["hist"], ev["step"] = h, step
             out.append(ev)
             eid += 1
+    return out
+
+
+def run_query_histories(nhist, seed, start, workdir, maxlen=6):
+    """several queries on ONE long-lived QueryWav (its file handle keeps a read position between calls); each query is a
+    'queryGetSamples' event judged like a query on a fresh object"""
+    audio, _, errors = mods()
+    rng = random.Random(seed * 37 + 5)
+    out = []
+    eid = start
+    for h in range(nhist):
+        rate, width = rng.choice([(8, 1), (8, 2), (1000, 2), (16000, 4)])
+        codec = codec_for(width)
+        pre = rng.sample(range(1, 40), rng.choice([1, 2, 5, 9, 20]))
+        fn = os.path.join(workdir, "q-%d-%d.wav" % (os.getpid(), eid))
+        write_wav(fn, pre, rate, codec)
+        try:
+            q = audio.QueryWav(fn)
+        except Exception as ex:  # noqa
+            out.append(common.broken_event(eid, {"op": "QueryWav", "pre": pre}, ex))
+            eid += 1
+            os.remove(fn)
+            continue
+        try:
+            n = len(pre)
+            for step in range(rng.randint(2, maxlen)):
+                t0, t1 = sorted([rng.randint(0, M * n), rng.randint(0, M * n)])
+                if rng.random() < 0.4:
+                    t0 = rng.choice([0, 1])              # starts at (or within half a sample of) the beginning
+                if rng.random() < 0.2:
+                    t1 = M * n
+                st, pe, ret = "ok", False, []
+                try:
+                    if rng.random() < 0.5:
+                        vals = q.getSamples(secs(t0, rate), secs(t1, rate))
+                        ret = [codec.inv.get(v, -1) for v in vals]
+                    else:
+                        ret, _al = codec.from_bytes(q.getFrames(secs(t0, rate), secs(t1, rate)))
+                except Exception as ex:  # noqa
+                    st, pe = type(ex).__name__, isinstance(ex, errors.PraatioException)
+                out.append({"id": eid, "fam": "audio", "op": "queryGetSamples", "args": {"t0": t0, "t1": t1}, "pre": pre, "st": st, "pe": pe,
+                            "ret": ret, "post": pre, "aligned": True, "dur": n, "M": M, "sameparams": True, "n": len(ret),
+                            "rate": rate, "width": width, "hist": h, "step": step})
+                eid += 1
+        finally:
+            q.audiofile.close()
+            os.remove(fn)
     return out
 
 
@@ -287,7 +364,7 @@ def run_split(vec, rate, width, eid, workdir):
     """vec: {pre: ids, entries: [{s, e, l}], others: [abstract tiers on the same unit grid], style, nopartial, tgflag}"""
     audio, scripts, errors = mods()
     textgrid = T.praatio()[0]
-    codec = Codec(width, ALL_IDS)
+    codec = codec_for(width)
     d = os.path.join(workdir, "split-%d-%d" % (os.getpid(), eid))
     os.makedirs(d)
     out = []
@@ -386,8 +463,19 @@ def run_tgzc(vec, rate, width, eid):
         ret = proj(r)
     except Exception as ex:  # noqa
         st = type(ex).__name__
+    # Two boundaries may snap to the same crossing (near the end of a recording the search only looks left): the tier
+    # constructor then refuses the collapsed or overlapping intervals.  Recomputed here boundary by boundary.
+    collapse = False
+    if st == "TextgridStateError":
+        try:
+            for t in tg.tiers:
+                if isinstance(t, textgrid.IntervalTier):
+                    moved = [(wav.findNearestZeroCrossing(e[0]), wav.findNearestZeroCrossing(e[1])) for e in t.entries]
+                    collapse = collapse or any(a >= b for a, b in moved) or any(moved[i][1] > moved[i + 1][0] for i in range(len(moved) - 1))
+        except Exception:  # noqa
+            pass
     return {"id": eid, "fam": "zc", "op": "tgZc", "samples": vec["samples"], "pre": pre, "ret": ret, "st": st, "M": M,
-            "rate": rate, "width": width, "args": {"k": 0}}
+            "rate": rate, "width": width, "args": {"k": 0}, "collapse": bool(collapse)}
 
 
 def run_splice(vec, rate, width, eid):
